@@ -293,20 +293,38 @@ Definition pop_front (im : imgr) : imgr * option N :=
     end
   end.
 
-(* PathIssueManager::add_issue (with the C06 repair: a re-reported issue replaces its FIFO
-   entry and evicts nothing).  Returns the manager, whether the issue was broadcast, panic *)
+(* the eviction loop of add_issue (C06 repair): [while cache.len() >= max_entries] pop the FIFO
+   front; a stale entry (its issue was re-reported since: timestamp differs) removes nothing, so
+   the loop goes on until an entry was really evicted or the FIFO is empty *)
+Fixpoint evict (size : N) (cache : list (issue * marker)) (fifo : list (issue * N)) : imgr * option N :=
+  if size <=? N.of_nat (length cache) then
+    match fifo with
+    | [] => (mkIM cache [], None)
+    | (i, ts) :: fifo' =>
+      match cache_get i cache with
+      | Some m => if m_ts m =? ts then evict size (cache_remove i cache) fifo' else evict size cache fifo'
+      | None => let '(im, _) := evict size cache fifo' in (im, Some P_FIFO_VACANT)
+      end
+    end
+  else (mkIM cache fifo, None).
+
+(* a FIFO entry is live when it carries the timestamp of its cached issue *)
+Definition live (cache : list (issue * marker)) (jt : issue * N) : bool :=
+  match cache_get (fst jt) cache with Some m => m_ts m =? snd jt | None => false end.
+
+(* PathIssueManager::add_issue (with the C06 repair: eviction loop; stale FIFO entries are
+   dropped once the FIFO holds 2 * max(max_entries, 1) entries).
+   Returns the manager, whether the issue was broadcast, panic *)
 Definition add_issue (c : cfg) (im : imgr) (i : issue) (m : marker) : imgr * bool * option N :=
   let dup := match cache_get i (im_cache im) with
              | Some ex => (m_ts m - m_ts ex) <? c_dedup c
              | None => false
              end in
   if dup then (im, false, None) else
-  let '(im1, pn) :=
-    match cache_get i (im_cache im) with
-    | Some _ => (mkIM (im_cache im) (filter (fun jt => negb (issue_eqb i (fst jt))) (im_fifo im)), None)
-    | None => if c_issue_size c <=? N.of_nat (length (im_cache im)) then pop_front im else (im, None)
-    end in
-  (mkIM (cache_insert i m (im_cache im1)) (im_fifo im1 ++ [(i, m_ts m)]), true, pn).
+  let '(im1, pn) := evict (c_issue_size c) (im_cache im) (im_fifo im) in
+  let fifo2 := if 2 * N.max (c_issue_size c) 1 <=? N.of_nat (length (im_fifo im1))
+               then filter (live (im_cache im1)) (im_fifo im1) else im_fifo im1 in
+  (mkIM (cache_insert i m (im_cache im1)) (fifo2 ++ [(i, m_ts m)]), true, pn).
 
 (* PathIssueManager::apply_cached_issues *)
 Definition apply_cached_issues (im : imgr) (e : entry) (now : N) : entry :=
